@@ -103,32 +103,72 @@ func runC11(c *Ctx) {
 		}
 	}
 	c.pausedHelper(paused)
-	// the functions that can write are called only from sync / each other
-	allowedCallers := map[string]map[string]bool{
-		"adoptOrphanRevisions":  {"sync": true},
-		"getPodsForStatefulSet": {"sync": true},
-		"syncStatefulSet":       {"sync": true},
-		"sync":                  {"processNextWorkItem": true},
-	}
-	for _, name := range []string{"adoptOrphanRevisions", "getPodsForStatefulSet", "syncStatefulSet", "sync"} {
-		fi := c.Func(load.CtrlPkg, "StatefulSetController."+name)
-		if fi == nil {
-			continue
-		}
-		for _, caller := range c.G.Callers(fi.Obj) {
-			c.Check(allowedCallers[name][caller.Name()], "C11.1-writers-called-only-through-sync", caller.Name()+" -> "+name, fi.Decl.Pos(),
-				"reached only through the gated path", name+" (which can write) is also called from "+caller.FullName()+", bypassing the pause gate")
-		}
-	}
-	// the control's methods are called only from the gated functions
-	for _, m := range []string{"UpdateStatefulSet", "ListRevisions", "AdoptOrphanRevisions"} {
-		im := ifaceMethod(c.P, load.CtrlPkg, "StatefulSetControlInterface", m)
-		for _, impl := range c.E.Sum.Impls[im] {
-			for _, caller := range c.G.Callers(impl) {
-				okc := map[string]bool{"syncStatefulSet": true, "adoptOrphanRevisions": true, "UpdateStatefulSet": true}[caller.Name()]
-				c.Check(okc, "C11.1-writers-called-only-through-sync", caller.Name()+" -> control."+m, 0, "reached only through the gated path", "the control's "+m+" is also called from "+caller.FullName())
+	// every write of the controller package sits behind sync: with sync taken out of the call graph, no function of the
+	// package that contains a write (or event) site is reachable from any entry (a function nothing in the program calls
+	// or refers to). The gate inside sync is C11.1-pause-gate above.
+	{
+		entries := []*types.Func{}
+		for _, fi := range c.P.Funcs() {
+			if fi.Obj == sy.Obj {
+				continue
+			}
+			if len(c.G.Callers(fi.Obj)) == 0 {
+				entries = append(entries, fi.Obj)
 			}
 		}
+		sort.Slice(entries, func(i, j int) bool { return entries[i].FullName() < entries[j].FullName() })
+		from := map[*types.Func]*types.Func{}
+		seen := map[*types.Func]bool{}
+		work := append([]*types.Func{}, entries...)
+		for _, e := range entries {
+			seen[e] = true
+		}
+		for len(work) > 0 {
+			f := work[0]
+			work = work[1:]
+			var ts []*types.Func
+			for t := range c.G.Direct[f] {
+				ts = append(ts, t)
+			}
+			sort.Slice(ts, func(i, j int) bool { return ts[i].FullName() < ts[j].FullName() })
+			for _, t := range ts {
+				if t == sy.Obj || seen[t] {
+					continue
+				}
+				seen[t] = true
+				from[t] = f
+				work = append(work, t)
+			}
+		}
+		writers := map[*types.Func]*effSiteRef{}
+		var order []*types.Func
+		for _, s := range c.G.Sites {
+			if s.Class != "write" && s.Class != "event" {
+				continue
+			}
+			fi := c.P.FuncInfoOf(s.Fn)
+			if fi == nil || fi.Pkg.PkgPath != load.CtrlPkg {
+				continue
+			}
+			if writers[s.Fn] == nil {
+				writers[s.Fn] = &effSiteRef{s.Resource + "." + s.Verb}
+				order = append(order, s.Fn)
+			}
+		}
+		sort.Slice(order, func(i, j int) bool { return order[i].FullName() < order[j].FullName() })
+		for _, w := range order {
+			name := w.Name() + " [" + writers[w].what + "]"
+			if !seen[w] {
+				c.OK("C11.1-writers-called-only-through-sync", name, 0, "every call chain from an entry of the program to this writing function passes through sync")
+				continue
+			}
+			var chain []string
+			for f := w; f != nil; f = from[f] {
+				chain = append([]string{f.Name()}, chain...)
+			}
+			c.Bad("C11.1-writers-called-only-through-sync", name, 0, "this writing function is reached without passing through sync (and its pause gate): "+strings.Join(chain, " -> "))
+		}
+		c.Floor("C11.1-writing-functions", len(order), 5)
 	}
 	// event handlers: no write, no event
 	nh := 0
@@ -339,7 +379,9 @@ func assignedFrom(fi *load.FuncInfo, info *types.Info, e ast.Expr) ast.Expr {
 	return rhs
 }
 
-// revisionAdoptionGate: C11.3 for ControllerRevisions.
+// revisionAdoptionGate: C11.3 for ControllerRevisions. Decided on adoptOrphanRevisions together with the helpers the
+// engine expands into it: every call there that writes (and is not itself expanded) is reached only with
+// fresh.UID == set.UID and fresh.DeletionTimestamp == nil, fresh being the result of the uncached Get.
 func (c *Ctx) revisionAdoptionGate() {
 	fi := c.Func(load.CtrlPkg, "StatefulSetController.adoptOrphanRevisions")
 	if fi == nil {
@@ -352,18 +394,32 @@ func (c *Ctx) revisionAdoptionGate() {
 		c.Fail("adoptOrphanRevisions: set parameter not found")
 		return
 	}
-	// the fresh object: result of the uncached Get in this function
+	// the fresh object: result of the uncached Get in this function or in a helper expanded into it
 	var fresh *ast.Ident
-	nRead := 0
+	var freshAt token.Pos
 	for _, s := range c.sitesOf(fi) {
 		if s.Class == "read" && s.Resource == "statefulsets.pingcap" && s.Verb == "Get" {
-			nRead++
 			k := 0
 			if s.Helper != nil {
 				k = c.resultIndexOf(s.Helper, s.Call, 0)
 			}
 			if as, ok := stmtOf(fi.Decl.Body, s.Top).(*ast.AssignStmt); ok && k >= 0 && k < len(as.Lhs) && len(as.Rhs) == 1 {
 				fresh, _ = as.Lhs[k].(*ast.Ident)
+				freshAt = as.End()
+			}
+		}
+	}
+	if fresh == nil {
+		for _, bd := range fn.Bodies()[1:] {
+			for _, call := range callsIn(bd, false) {
+				for _, s := range c.G.Sites {
+					if s.Call == call && s.Class == "read" && s.Resource == "statefulsets.pingcap" && s.Verb == "Get" {
+						if as, ok := stmtOf(bd, call).(*ast.AssignStmt); ok && len(as.Rhs) == 1 && len(as.Lhs) == 2 {
+							fresh, _ = as.Lhs[0].(*ast.Ident)
+							freshAt = as.End()
+						}
+					}
+				}
 			}
 		}
 	}
@@ -371,29 +427,46 @@ func (c *Ctx) revisionAdoptionGate() {
 		c.Bad("C11.3-revision-adoption-gate", fi.Obj.Name(), fi.Decl.Pos(), "no uncached read of the set precedes revision adoption")
 		return
 	}
-	want := c.Want(fn, fi.Decl.Body.End()-1, "true")
-	_ = want
+	// each side of the gate is read in its own scope (the fresh object may live in an expanded helper)
+	fUID, fDel := c.TryWantTerm(fn, freshAt, "$1.UID", fresh), c.TryWantTerm(fn, freshAt, "$1.DeletionTimestamp", fresh)
+	sUID := c.TryWantTerm(fn, fi.Decl.Body.Lbrace+1, "$1.UID", sets[0])
+	if fUID == nil || fDel == nil || sUID == nil {
+		c.Unk("C11.3-revision-adoption-gate", fi.Obj.Name(), fi.Decl.Pos(), "the UID / deletion timestamp of the fresh object or of the set cannot be read")
+		return
+	}
+	gate := gf.And(gf.FEq(fUID, sUID), gf.FNil(fDel))
 	n := 0
-	for _, call := range callsIn(fi.Decl.Body, false) {
-		var effs []string
-		for _, t := range c.G.CallTargets(info, call) {
-			for k := range c.G.Effects(t, "write") {
-				effs = append(effs, k)
+	for _, bd := range fn.Bodies() {
+		for _, call := range callsIn(bd, false) {
+			if fn.IsExpandedCall(call) {
+				continue // its body is looked at itself
+			}
+			var effs []string
+			for _, t := range c.G.CallTargets(info, call) {
+				for k := range c.G.Effects(t, "write") {
+					effs = append(effs, k)
+				}
+			}
+			for _, s := range c.G.Sites {
+				if s.Call == call && s.Class == "write" {
+					effs = append(effs, s.Resource+"."+s.Verb)
+				}
+			}
+			if len(effs) == 0 {
+				continue
+			}
+			sort.Strings(effs)
+			for i, st := range an.StatesAtExpr(call) {
+				n++
+				name := fmt.Sprintf("%s: %s [effects: %s]", fi.Obj.Name(), clip(types.ExprString(call.Fun), 50), strings.Join(effs, ","))
+				if i > 0 {
+					name += fmt.Sprintf(" #%d", i+1)
+				}
+				c.Implies(st, gate, "C11.3-revision-adoption-gate", name, call.Pos())
 			}
 		}
-		for _, s := range c.G.Sites {
-			if s.Call == call && s.Class == "write" {
-				effs = append(effs, s.Resource+"."+s.Verb)
-			}
-		}
-		if len(effs) == 0 {
-			continue
-		}
-		n++
-		sort.Strings(effs)
-		name := fmt.Sprintf("%s: %s [effects: %s]", fi.Obj.Name(), clip(types.ExprString(call.Fun), 50), strings.Join(effs, ","))
-		gate := c.Want(fn, call.Pos(), "$1.UID == $2.UID && $1.DeletionTimestamp == nil", fresh, sets[0])
-		c.Implies(an.StateAtExpr(call), gate, "C11.3-revision-adoption-gate", name, call.Pos())
 	}
 	c.Floor("C11.3-revision-writes-in-adoption", n, 2)
 }
+
+type effSiteRef struct{ what string }
